@@ -1,5 +1,17 @@
 package query
 
+// windowIndex returns the number of the interval of the given length that
+// contains t. Integer division truncates toward zero, so for a time before the
+// epoch that is not a multiple of the interval the quotient alone is one too
+// large and two neighbouring windows would get the same number.
+func windowIndex(t, interval int64) int64 {
+	n := t / interval
+	if t%interval < 0 {
+		n--
+	}
+	return n
+}
+
 // linearFloat computes the the slope of the line between the points (previousTime, previousValue) and (nextTime, nextValue)
 // and returns the value of the point on the line with time windowTime
 // y = mx + b
